@@ -8,15 +8,44 @@
 //   t.setx k x                       -> orig d1 d2
 //   t.fd k x h                       -> g- g0 g+ a- a0 a+ b- b0 b+   (g = original value, a = d1, b = d2 at x-h, x, x+h)
 //   t.mono k x1 x2                   -> o1 o2
-//   w.new n {shape lo hi value c q e}^n -> x.. ; o.. ; p..    (transformed values, back-transformed values, function's values)
-//   w.newsub n sel {shape lo hi value c q e}^n -> x.. ; o.. ; p..   (second constructor: only the parameters listed in
-//                                       `sel` = comma separated indices in any order, `f` = a foreign parameter the function does
-//                                       not have; x.., o.. in the wrapper's order, p.. all the function's values)
-//   w.set m {i x}^m                  -> f ; p.. ; fp..         (function's own values, wrapper's copy; i = function index)
-//   w.touch m {i}^m                  -> f ; p.. ; fp..         (f() with the current values of the named coordinates)
+//   t.clone k j                      -> x orig d1 d2            (register k := register j ->clone())
+// Objects: function registers f0 f1 (std::shared_ptr<PolyFunction>), wrapper registers w0..w3 (each one of the
+// three library classes, cls 0 = ReparametrizationFunctionWrapper, 1 = ...DerivableFirstOrderWrapper,
+// 2 = ...DerivableSecondOrderWrapper; the library's own objects, no subclass), a current wrapper register.
+//   f.new g n {shape lo hi value c q e}^n -> ok | exc:constraint       (a new function object in register g; the
+//                                       function in register 1 has the namespace "m.": its parameters are m.p0, m.p1, ...)
+//   w.mk k g cls sel                 -> x.. ; o.. ; p..   wrapper register k := new <cls>(f_g) when sel = `all` (first
+//                                       constructor), else new <cls>(f_g, list) (second constructor) with list = the
+//                                       comma separated items of sel in that order: `i` a copy of the function's
+//                                       parameter i, `i@<hex>` the same with another value, `f` a foreign parameter
+//                                       (x.. transformed values, o.. back-transformed values in the wrapper's order,
+//                                       p.. all the function's values)
+//   w.new n {...}^n                  = drop everything, f.new 0, w.mk 0 0 2 all, w.use 0
+//   w.newsub n sel {...}^n           = drop everything, f.new 0, w.mk 0 0 2 sel, w.use 0
+//   w.use k                          -> ok                      (the operations below act on wrapper register k)
+//   w.clone k j | w.copy k j         -> cls same ; pn.. ; fpn.. ; x.. ; fpv..   register k := w_j->clone() (through the
+//                                       base class pointer) | copy-constructed from w_j with its own class; cls = class
+//                                       of the result (dynamic_cast), same = 1 when it holds the same function object
+//                                       as w_j, pn = names (indices) of its parameters, fpn = names of its
+//                                       functionParameters_, x = transformed values, fpv = values of functionParameters_
+//   w.assign k j                     -> same format             *w_k = *w_j (operator= of the common class)
+//   w.set m {i x}^m                  -> f ; p.. ; fp..          f(list of plain Parameter(p<i>, x)); p = function's own
+//                                       values, fp = the wrapper's copy; i = function index, any order
+//   w.touch m {i}^m                  -> f ; p.. ; fp..          (f() with the current values of the named coordinates)
+//   w.get                            -> getValue() ; function().getValue() ; same ; p..   (same = getFunction() is the
+//                                       function object the wrapper was built on / copied / assigned from)
+//   w.names                          -> pn.. ; fpn..            (names of parameters_ / of functionParameters_)
+//   w.pv i x | w.all x.. | w.match m {i x}^m | w.pvs m {i x}^m -> getValue() ; p.. ; fp..
+//                                       inherited setParameterValue / setAllParametersValues / matchParametersValues /
+//                                       setParametersValues
+//   w.fire                           -> getValue() ; p.. ; fp..   (fireParameterChanged(empty list), called directly)
+//   w.en which yn                    -> wrapper's getter, function's two switches
 //   w.d1 i | w.d2 i j                -> value
-//   w.fd i h                         -> f- f0 f+ a- a0 a+ b0   (a = wrapper d1_i, b0 = wrapper d2_ii)
+//   w.fd i h                         -> f- f0 f+ a- a0 a+ b0   (a = wrapper d1_i, b0 = wrapper d2_ii; class 2)
+//   w.fd1 i h                        -> f- f0 f+ a- a0 a+ 0    (class >= 1)
 //   w.fdx i j h                      -> a- a+ c0                (a = wrapper d1_i at x_j -/+ h, c0 = wrapper d2_ij)
+//   f.set g m {i x}^m                -> f ; p..                 (the owner moves function g: fn->setParameters)
+// After an exception inside a `w.` / `f.` operation every function and wrapper register is dropped.
 #include "common.h"
 #include <Bpp/Numeric/TransformedParameter.h>
 #include <Bpp/Numeric/Function/ReparametrizationFunctionWrapper.h>
@@ -39,7 +68,7 @@ class PolyFunction :
 {
 public:
   std::vector<double> c_, q_, e_;
-  PolyFunction() : AbstractParametrizable("") {}
+  PolyFunction(const std::string& ns = "") : AbstractParametrizable(ns) {}
   PolyFunction* clone() const { return new PolyFunction(*this); }
   void add(const std::string& name, double value, std::shared_ptr<ConstraintInterface> cons, double c, double q, double e)
   {
@@ -48,7 +77,8 @@ public:
   }
   size_t n() const { return c_.size(); }
   double p(size_t i) const { return getParameters()[i].getValue(); }
-  size_t idx(const std::string& v) const { return static_cast<size_t>(std::stoul(v.substr(1))); }
+  // the name of parameter i is <namespace>p<i>
+  size_t idx(const std::string& v) const { return static_cast<size_t>(std::stoul(v.substr(v.rfind('p') + 1))); }
   void setParameters(const ParameterList& pl) { matchParametersValues(pl); }
   double getValue() const
   {
@@ -61,10 +91,11 @@ public:
     }
     return acc;
   }
-  void enableFirstOrderDerivatives(bool) {}
-  bool enableFirstOrderDerivatives() const { return true; }
-  void enableSecondOrderDerivatives(bool) {}
-  bool enableSecondOrderDerivatives() const { return true; }
+  bool d1on_ = true, d2on_ = true;
+  void enableFirstOrderDerivatives(bool yn) { d1on_ = yn; }
+  bool enableFirstOrderDerivatives() const { return d1on_; }
+  void enableSecondOrderDerivatives(bool yn) { d2on_ = yn; }
+  bool enableSecondOrderDerivatives() const { return d2on_; }
   double getFirstOrderDerivative(const std::string& v) const
   {
     size_t i = idx(v);
@@ -85,19 +116,26 @@ public:
   }
 };
 
-struct Wrap : public ReparametrizationDerivableSecondOrderWrapper
+typedef ReparametrizationFunctionWrapper W0;
+typedef ReparametrizationDerivableFirstOrderWrapper W1;
+typedef ReparametrizationDerivableSecondOrderWrapper W2;
+
+// read access to the protected functionParameters_ of any wrapper object (no subclass of ours is ever instantiated:
+// clone() and the copy operations exercised are the library's own)
+struct Peek : public ReparametrizationFunctionWrapper
 {
-  Wrap(std::shared_ptr<SecondOrderDerivable> f) : ReparametrizationDerivableSecondOrderWrapper(f, false) {}
-  Wrap(std::shared_ptr<SecondOrderDerivable> f, const ParameterList& pl) : ReparametrizationDerivableSecondOrderWrapper(f, pl, false) {}
-  const ParameterList& fps() const { return functionParameters_; }
+  static const ParameterList& fps(const ReparametrizationFunctionWrapper& w) { return w.*(&Peek::functionParameters_); }
 };
 
 struct State
 {
   std::vector<std::unique_ptr<TransformedParameter>> t;
-  std::shared_ptr<PolyFunction> fn;
-  std::unique_ptr<Wrap> w;
-  State() { t.resize(4); }
+  std::shared_ptr<PolyFunction> fn[2];
+  std::unique_ptr<W0> w[4];
+  PolyFunction* wfn[4];   // the function object register k was built on / copied / assigned from
+  size_t cur;
+  State() : cur(0) { t.resize(4); for (auto& p : wfn) p = nullptr; }
+  void dropAll() { for (auto& x : w) x.reset(); for (auto& x : fn) x.reset(); for (auto& p : wfn) p = nullptr; }
 };
 
 static std::shared_ptr<ConstraintInterface> mkConstraint(const std::string& shape, double lo, double hi)
@@ -113,14 +151,265 @@ static std::shared_ptr<ConstraintInterface> mkConstraint(const std::string& shap
   return nullptr;
 }
 
-static std::string pname(size_t i) { return "p" + std::to_string(i); }
+// parameter i of a function is named <namespace>p<i>; function register 1 has the namespace "m.", register 0 none
+static std::string pname(const PolyFunction& fn, size_t i) { return fn.getNamespace() + "p" + std::to_string(i); }
+static size_t pidx(const std::string& name) { return static_cast<size_t>(std::stoul(name.substr(name.rfind('p') + 1))); }
+
+static int clsOf(const W0& w)
+{
+  if (dynamic_cast<const W2*>(&w)) return 2;
+  if (dynamic_cast<const W1*>(&w)) return 1;
+  return 0;
+}
+
+static PolyFunction& fnOf(W0& w) { return dynamic_cast<PolyFunction&>(w.function()); }
+
+// a list of plain parameters p<i> = x
+static ParameterList plainList(const PolyFunction& fn, const Toks& t, size_t from, size_t m)
+{
+  ParameterList pl;
+  for (size_t j = 0; j < m; ++j) pl.addParameter(Parameter(pname(fn, toU(t[from + 2 * j])), dv(t[from + 2 * j + 1])));
+  return pl;
+}
 
 // set transformed coordinate i of the wrapper to x through the public interface, return f
-static double wsetOne(Wrap& w, size_t i, double x)
+static double wsetOne(W0& w, size_t i, double x)
 {
-  ParameterList pl = w.getParameters().createSubList(pname(i));
-  pl[0].setValue(x);
+  ParameterList pl;
+  pl.addParameter(Parameter(pname(fnOf(w), i), x));
   return w.f(pl);
+}
+
+static std::string fvals(const PolyFunction& fn)
+{
+  std::string r;
+  for (size_t i = 0; i < fn.n(); ++i) r += " " + hx(fn.p(i));
+  return r;
+}
+
+static std::string fpvals(const W0& w)
+{
+  std::string r;
+  const ParameterList& fps = Peek::fps(w);
+  for (size_t i = 0; i < fps.size(); ++i) r += " " + hx(fps[i].getValue());
+  return r;
+}
+
+static std::string dumpW(const W0& w, bool same)
+{
+  std::string r = std::to_string(clsOf(w)) + (same ? " 1 ;" : " 0 ;");
+  for (size_t i = 0; i < w.getNumberOfParameters(); ++i) r += " " + std::to_string(pidx(w.getParameters()[i].getName()));
+  r += " ;";
+  const ParameterList& fps = Peek::fps(w);
+  for (size_t i = 0; i < fps.size(); ++i) r += " " + (fps[i].getName() == "zz" ? std::string("1000000") : std::to_string(pidx(fps[i].getName())));
+  r += " ;";
+  for (size_t i = 0; i < w.getNumberOfParameters(); ++i) r += " " + hx(w.getParameters()[i].getValue());
+  r += " ;" + fpvals(w);
+  return r;
+}
+
+static void newFn(State& s, size_t g, const Toks& t, size_t n, size_t off)
+{
+  auto fn = std::make_shared<PolyFunction>(g == 1 ? "m." : "");
+  for (size_t i = 0; i < n; ++i)
+  {
+    size_t b = off + 7 * i;
+    fn->add(pname(*fn, i), dv(t[b + 3]), mkConstraint(t[b], dv(t[b + 1]), dv(t[b + 2])), dv(t[b + 4]), dv(t[b + 5]), dv(t[b + 6]));
+  }
+  s.fn[g] = fn;
+}
+
+static std::string mkW(State& s, size_t k, size_t g, int cls, const std::string& sel)
+{
+  std::shared_ptr<PolyFunction> fn = s.fn[g];
+  std::unique_ptr<W0> w;
+  if (sel == "all")
+  {
+    if (cls == 0) w.reset(new W0(fn, false)); else if (cls == 1) w.reset(new W1(fn, false)); else w.reset(new W2(fn, false));
+  }
+  else
+  {
+    // the list given to the second constructor, in the order of `sel`
+    ParameterList pl;
+    size_t pos = 0;
+    while (pos <= sel.size())
+    {
+      size_t c = sel.find(',', pos); if (c == std::string::npos) c = sel.size();
+      std::string tok = sel.substr(pos, c - pos); pos = c + 1;
+      size_t at = tok.find('@');
+      if (tok == "f") pl.addParameter(Parameter("zz", 1.));
+      else if (at == std::string::npos) pl.addParameter(fn->getParameters().parameter(pname(*fn, toU(tok))));
+      else
+      {
+        // a copy of the function's parameter (same constraint) carrying another value; raises when rejected
+        Parameter q(fn->getParameters().parameter(pname(*fn, toU(tok.substr(0, at)))));
+        q.setValue(dv(tok.substr(at + 1)));
+        pl.addParameter(q);
+      }
+    }
+    if (cls == 0) w.reset(new W0(fn, pl, false)); else if (cls == 1) w.reset(new W1(fn, pl, false)); else w.reset(new W2(fn, pl, false));
+  }
+  s.w[k] = std::move(w); s.wfn[k] = fn.get();
+  W0& ww = *s.w[k];
+  size_t m = ww.getNumberOfParameters();
+  std::string r;
+  for (size_t i = 0; i < m; ++i) r += hx(ww.getParameters()[i].getValue()) + " ";
+  r += ";";
+  for (size_t i = 0; i < m; ++i) r += " " + hx(dynamic_cast<const TransformedParameter&>(ww.getParameters()[i]).getOriginalValue());
+  r += " ;" + fvals(*fn);
+  return r;
+}
+
+static std::string doW(State& s, const Toks& t)
+{
+  const std::string& o = t[0];
+  if (o == "w.new" || o == "w.newsub")
+  {
+    s.dropAll(); s.cur = 0;
+    bool sub = (o == "w.newsub");
+    newFn(s, 0, t, toU(t[1]), sub ? 3 : 2);
+    return mkW(s, 0, 0, 2, sub ? t[2] : std::string("all"));
+  }
+  if (o == "f.new") { size_t g = toU(t[1]); if (g >= 2) return "bad-op"; newFn(s, g, t, toU(t[2]), 3); return "ok"; }
+  if (o == "w.mk")
+  {
+    size_t k = toU(t[1]), g = toU(t[2]); int cls = static_cast<int>(toU(t[3]));
+    if (k >= 4 || g >= 2 || cls > 2 || !s.fn[g]) return "bad-op";
+    return mkW(s, k, g, cls, t[4]);
+  }
+  if (o == "w.use") { size_t k = toU(t[1]); if (k >= 4 || !s.w[k]) return "bad-op"; s.cur = k; return "ok"; }
+  if (o == "w.clone" || o == "w.copy" || o == "w.assign")
+  {
+    size_t k = toU(t[1]), j = toU(t[2]);
+    if (k >= 4 || j >= 4 || !s.w[j]) return "bad-op";
+    const W0& src = *s.w[j];
+    int cj = clsOf(src);
+    if (o == "w.assign")
+    {
+      if (!s.w[k]) return "bad-op";
+      W0& dst = *s.w[k];
+      int ck = clsOf(dst);
+      if (ck == 2 && cj == 2) dynamic_cast<W2&>(dst) = dynamic_cast<const W2&>(src);
+      else if (ck >= 1 && cj >= 1) dynamic_cast<W1&>(dst) = dynamic_cast<const W1&>(src);
+      else dst = src;
+      s.wfn[k] = s.wfn[j];
+    }
+    else
+    {
+      std::unique_ptr<W0> c;
+      if (o == "w.clone") c.reset(src.clone());
+      else if (cj == 2) c.reset(new W2(dynamic_cast<const W2&>(src)));
+      else if (cj == 1) c.reset(new W1(dynamic_cast<const W1&>(src)));
+      else c.reset(new W0(src));
+      if (k == j) { std::unique_ptr<W0> old = std::move(s.w[k]); s.w[k] = std::move(c); }
+      else s.w[k] = std::move(c);
+      s.wfn[k] = s.wfn[j];
+    }
+    return dumpW(*s.w[k], s.w[k]->getFunction().get() == s.w[j]->getFunction().get());
+  }
+  if (o == "f.set")
+  {
+    size_t g = toU(t[1]), m = toU(t[2]);
+    if (g >= 2 || !s.fn[g]) return "bad-op";
+    for (size_t j = 0; j < m; ++j) if (toU(t[3 + 2 * j]) >= s.fn[g]->n()) return "bad-op";
+    ParameterList pl = plainList(*s.fn[g], t, 3, m);
+    s.fn[g]->setParameters(pl);
+    return hx(s.fn[g]->getValue()) + " ;" + fvals(*s.fn[g]);
+  }
+  // the single-wrapper operations act on the current register
+  if (s.cur >= 4 || !s.w[s.cur]) return "bad-op";
+  W0& w = *s.w[s.cur];
+  int cls = clsOf(w);
+  PolyFunction& fn = fnOf(w);
+  size_t n = fn.n();
+  W1* w1 = dynamic_cast<W1*>(&w);
+  W2* w2 = dynamic_cast<W2*>(&w);
+  if (o == "w.set" || o == "w.touch")
+  {
+    bool touch = (o == "w.touch");
+    size_t m = toU(t[1]);
+    ParameterList pl;
+    if (touch)
+    {
+      std::vector<std::string> names;
+      for (size_t j = 0; j < m; ++j) names.push_back(pname(fn, toU(t[2 + j])));
+      pl = w.getParameters().createSubList(names);
+    }
+    else pl = plainList(fn, t, 2, m);
+    double f = w.f(pl);
+    return hx(f) + " ;" + fvals(fn) + " ;" + fpvals(w);
+  }
+  if (o == "w.names")
+  {
+    std::string r;
+    for (size_t i = 0; i < w.getNumberOfParameters(); ++i) r += std::to_string(pidx(w.getParameters()[i].getName())) + " ";
+    r += ";";
+    const ParameterList& fps = Peek::fps(w);
+    for (size_t i = 0; i < fps.size(); ++i) r += " " + (fps[i].getName() == "zz" ? std::string("1000000") : std::to_string(pidx(fps[i].getName())));
+    return r;
+  }
+  if (o == "w.get")
+  {
+    std::string r = hx(w.getValue()) + " ; " + hx(w.function().getValue()) + " ; " + (w.getFunction().get() == s.wfn[s.cur] ? "1" : "0") + " ;";
+    return r + fvals(fn);
+  }
+  if (o == "w.pv" || o == "w.all" || o == "w.match" || o == "w.pvs" || o == "w.fire")
+  {
+    if (o == "w.fire") w.fireParameterChanged(ParameterList());
+    else if (o == "w.pv") w.setParameterValue("p" + std::to_string(toU(t[1])), dv(t[2]));   // name without namespace (AbstractParametrizable.h:63-67)
+    else if (o == "w.all")
+    {
+      if (t.size() - 1 != w.getNumberOfParameters()) return "bad-op";
+      ParameterList pl;
+      for (size_t i = 0; i < w.getNumberOfParameters(); ++i) pl.addParameter(Parameter(w.getParameters()[i].getName(), dv(t[1 + i])));
+      w.setAllParametersValues(pl);
+    }
+    else
+    {
+      ParameterList pl = plainList(fn, t, 2, toU(t[1]));
+      if (o == "w.match") w.matchParametersValues(pl); else w.setParametersValues(pl);
+    }
+    return hx(w.getValue()) + " ;" + fvals(fn) + " ;" + fpvals(w);
+  }
+  if (o == "w.en")
+  {
+    bool yn = (t[2] == "1");
+    if (t[1] == "1" && w1) { w1->enableFirstOrderDerivatives(yn); return std::string(w1->enableFirstOrderDerivatives() ? "1" : "0") + (fn.d1on_ ? " 1" : " 0") + (fn.d2on_ ? " 1" : " 0"); }
+    if (t[1] == "2" && w2) { w2->enableSecondOrderDerivatives(yn); return std::string(w2->enableSecondOrderDerivatives() ? "1" : "0") + (fn.d1on_ ? " 1" : " 0") + (fn.d2on_ ? " 1" : " 0"); }
+    return "bad-op";
+  }
+  if (o == "w.d1") { size_t i = toU(t[1]); if (!w1 || i >= n) return "bad-op"; return hx(w1->getFirstOrderDerivative(pname(fn, i))); }
+  if (o == "w.d2")
+  {
+    size_t i = toU(t[1]), j = toU(t[2]);
+    if (!w2 || i >= n || j >= n) return "bad-op";
+    return hx(i == j ? w2->getSecondOrderDerivative(pname(fn, i)) : w2->getSecondOrderDerivative(pname(fn, i), pname(fn, j)));
+  }
+  if (o == "w.fd" || o == "w.fd1")
+  {
+    bool second = (o == "w.fd");
+    size_t i = toU(t[1]); double h = dv(t[2]);
+    if ((second ? !w2 : !w1) || i >= n) return "bad-op";
+    double x = w.getParameters().parameter(pname(fn, i)).getValue();
+    double fm = wsetOne(w, i, x - h); double am = w1->getFirstOrderDerivative(pname(fn, i));
+    double fp = wsetOne(w, i, x + h); double ap = w1->getFirstOrderDerivative(pname(fn, i));
+    double f0 = wsetOne(w, i, x); double a0 = w1->getFirstOrderDerivative(pname(fn, i));
+    double b0 = second ? w2->getSecondOrderDerivative(pname(fn, i)) : 0.;
+    return hx(fm) + " " + hx(f0) + " " + hx(fp) + " " + hx(am) + " " + hx(a0) + " " + hx(ap) + " " + hx(b0);
+  }
+  if (o == "w.fdx")
+  {
+    size_t i = toU(t[1]), j = toU(t[2]); double h = dv(t[3]);
+    if (!w2 || i >= n || j >= n || i == j) return "bad-op";
+    w.getParameters().parameter(pname(fn, i));   // both coordinates must belong to the wrapper
+    double x = w.getParameters().parameter(pname(fn, j)).getValue();
+    wsetOne(w, j, x - h); double am = w2->getFirstOrderDerivative(pname(fn, i));
+    wsetOne(w, j, x + h); double ap = w2->getFirstOrderDerivative(pname(fn, i));
+    wsetOne(w, j, x);
+    double c0 = w2->getSecondOrderDerivative(pname(fn, i), pname(fn, j));
+    return hx(am) + " " + hx(ap) + " " + hx(c0);
+  }
+  return "bad-op";
 }
 
 static std::string doOp(State& s, const Toks& t)
@@ -129,6 +418,15 @@ static std::string doOp(State& s, const Toks& t)
   if (o == "r.new") { size_t k = toU(t[1]); s.t[k].reset(); s.t[k].reset(new RTransformedParameter("t", dv(t[2]), dv(t[3]), t[4] == "1", dv(t[5]))); return hx(s.t[k]->getValue()); }
   if (o == "i.new") { size_t k = toU(t[1]); s.t[k].reset(); s.t[k].reset(new IntervalTransformedParameter("t", dv(t[2]), dv(t[3]), dv(t[4]), dv(t[5]), t[6] == "1")); return hx(s.t[k]->getValue()); }
   if (o == "p.new") { size_t k = toU(t[1]); s.t[k].reset(); s.t[k].reset(new PlaceboTransformedParameter("t", dv(t[2]))); return hx(s.t[k]->getValue()); }
+  if (o == "t.clone")
+  {
+    size_t k = toU(t[1]), j = toU(t[2]);
+    if (k >= s.t.size() || j >= s.t.size() || !s.t[j]) return "bad-op";
+    std::unique_ptr<TransformedParameter> c(s.t[j]->clone());
+    s.t[k] = std::move(c);
+    TransformedParameter& p = *s.t[k];
+    return hx(p.getValue()) + " " + hx(p.getOriginalValue()) + " " + hx(p.getFirstOrderDerivative()) + " " + hx(p.getSecondOrderDerivative());
+  }
   if (o.compare(0, 2, "t.") == 0)
   {
     size_t k = toU(t[1]);
@@ -152,100 +450,15 @@ static std::string doOp(State& s, const Toks& t)
     }
     return "bad-op";
   }
-  if (o == "w.new" || o == "w.newsub")
+  if (o.compare(0, 2, "w.") == 0 || o.compare(0, 2, "f.") == 0)
   {
-    s.w.reset(); s.fn.reset();
-    bool sub = (o == "w.newsub");
-    size_t n = toU(t[1]);
-    size_t off = sub ? 3 : 2;
-    auto fn = std::make_shared<PolyFunction>();
-    for (size_t i = 0; i < n; ++i)
-    {
-      size_t b = off + 7 * i;
-      fn->add(pname(i), dv(t[b + 3]), mkConstraint(t[b], dv(t[b + 1]), dv(t[b + 2])), dv(t[b + 4]), dv(t[b + 5]), dv(t[b + 6]));
-    }
-    std::unique_ptr<Wrap> w;
-    if (sub)
-    {
-      // the list given to the second constructor: copies of the function's own parameters, in the order of `sel`
-      ParameterList pl;
-      std::string sel = t[2]; size_t pos = 0;
-      while (pos <= sel.size())
-      {
-        size_t c = sel.find(',', pos); if (c == std::string::npos) c = sel.size();
-        std::string tok = sel.substr(pos, c - pos); pos = c + 1;
-        if (tok == "f") pl.addParameter(Parameter("zz", 1.)); else pl.addParameter(fn->parameter(pname(toU(tok))));
-      }
-      w.reset(new Wrap(fn, pl));
-    }
-    else w.reset(new Wrap(fn));
-    s.fn = fn; s.w = std::move(w);
-    size_t m = s.w->getNumberOfParameters();
-    std::string r;
-    for (size_t i = 0; i < m; ++i) r += hx(s.w->getParameters()[i].getValue()) + " ";
-    r += ";";
-    for (size_t i = 0; i < m; ++i) r += " " + hx(dynamic_cast<const TransformedParameter&>(s.w->getParameters()[i]).getOriginalValue());
-    r += " ;";
-    for (size_t i = 0; i < n; ++i) r += " " + hx(s.fn->p(i));
-    return r;
-  }
-  if (o.compare(0, 2, "w.") == 0)
-  {
-    if (!s.w) return "bad-op";
-    Wrap& w = *s.w;
-    size_t n = s.fn->n();
-    try
-    {
-      if (o == "w.set" || o == "w.touch")
-      {
-        bool touch = (o == "w.touch");
-        size_t m = toU(t[1]);
-        std::vector<std::string> names;
-        for (size_t j = 0; j < m; ++j) names.push_back(pname(toU(t[touch ? 2 + j : 2 + 2 * j])));
-        ParameterList pl = w.getParameters().createSubList(names);
-        if (!touch) for (size_t j = 0; j < m; ++j) pl[j].setValue(dv(t[3 + 2 * j]));
-        double f = w.f(pl);
-        std::string r = hx(f) + " ;";
-        for (size_t i = 0; i < n; ++i) r += " " + hx(s.fn->p(i));
-        r += " ;";
-        for (size_t i = 0; i < w.fps().size(); ++i) r += " " + hx(w.fps()[i].getValue());
-        return r;
-      }
-      if (o == "w.d1") { return hx(w.getFirstOrderDerivative(pname(toU(t[1])))); }
-      if (o == "w.d2")
-      {
-        size_t i = toU(t[1]), j = toU(t[2]);
-        return hx(i == j ? w.getSecondOrderDerivative(pname(i)) : w.getSecondOrderDerivative(pname(i), pname(j)));
-      }
-      if (o == "w.fd")
-      {
-        size_t i = toU(t[1]); double h = dv(t[2]);
-        double x = w.parameter(pname(i)).getValue();
-        double fm = wsetOne(w, i, x - h); double am = w.getFirstOrderDerivative(pname(i));
-        double fp = wsetOne(w, i, x + h); double ap = w.getFirstOrderDerivative(pname(i));
-        double f0 = wsetOne(w, i, x); double a0 = w.getFirstOrderDerivative(pname(i));
-        double b0 = w.getSecondOrderDerivative(pname(i));
-        return hx(fm) + " " + hx(f0) + " " + hx(fp) + " " + hx(am) + " " + hx(a0) + " " + hx(ap) + " " + hx(b0);
-      }
-      if (o == "w.fdx")
-      {
-        size_t i = toU(t[1]), j = toU(t[2]); double h = dv(t[3]);
-        double x = w.parameter(pname(j)).getValue();
-        w.parameter(pname(i));   // both coordinates must belong to the wrapper
-        wsetOne(w, j, x - h); double am = w.getFirstOrderDerivative(pname(i));
-        wsetOne(w, j, x + h); double ap = w.getFirstOrderDerivative(pname(i));
-        wsetOne(w, j, x);
-        double c0 = w.getSecondOrderDerivative(pname(i), pname(j));
-        return hx(am) + " " + hx(ap) + " " + hx(c0);
-      }
-    }
+    try { return doW(s, t); }
     catch (...)
     {
-      // after an exception inside the wrapper its state is only partly updated: drop it
-      s.w.reset(); s.fn.reset();
+      // after an exception inside a wrapper its state is only partly updated: drop every object
+      s.dropAll();
       throw;
     }
-    return "bad-op";
   }
   return "bad-op";
 }
